@@ -638,6 +638,7 @@ def run(ctx):
 
     # ---- the model on the same inputs
     mism = []
+    soft = []     # internal structure (node flags, calculator terms): reported, an alarm only together with a value mismatch
     model_ok = built
 
     def mm(what, spec, info):
@@ -664,12 +665,12 @@ def run(ctx):
                 for i, f in ob['flags'].items():
                     ctx.corr += 1
                     if list(flags[i]) != list(f):
-                        mm('flags', spec, (i, flags[i], f))
+                        soft.append(('flags', CG.describe(spec), (i, flags[i], f)))
                 mc = {int(i): norm_calc(c) for i, c in calcv}
                 ic = {i: norm_calc(c) for i, c in ob['calc'].items()}
                 ctx.corr += 1
                 if mc != ic:
-                    mm('calculator terms', spec, {'model': mc, 'impl': ic})
+                    soft.append(('calculator terms', CG.describe(spec), {'model': mc, 'impl': ic}))
                 if auto:
                     mmk = {int(i): (None if v is None else (int(v[1][0]), bool(v[1][1]))) for i, v in maskv}
                     imk = {i: (None if v is None else (v[0], v[1])) for i, v in ob['maskers'].items()}
@@ -702,6 +703,9 @@ def run(ctx):
             ctx.notes.append('model evaluation failed: ' + (str(ex) or repr(ex))[-1500:] + traceback.format_exc()[-800:])
 
     ctx.extra['model_impl_mismatches'] = len(mism)
+    ctx.extra['internal_structure_differences(flags, calculator terms)'] = len(soft)
+    if soft:
+        ctx.notes.append('internal structure differs from the model (not an alarm by itself): ' + repr(soft[:2])[:1500])
     if mism:
         ctx.notes.append('first mismatches: ' + repr(mism[:3])[:3000])
     if not ctx.violations and not ctx.known_printed:
